@@ -16,7 +16,10 @@ SPEC = dict(
          "{valid changed value, valid changed bytes only, identical bytes, deprecated setting (warning), validation error, "
          "wrong datatype, syntax error, unknown group, path removed} followed by reload triggers through Config.Reload() "
          "(timer path) or the real ConfigWatcher.SubscriptionListener (pubsub path, incl. unparseable message), listener "
-         "registrations, and at most one concurrency stress op (G goroutines x R rounds of Reload with file rewrites); every "
+         "registrations, and at most one concurrency stress op (G goroutines x R rounds of Reload with file rewrites); about 3% of "
+         "the cases (and two corpus cases) are watcher-driven: the real ConfigWatcher + LocalPubSub started on the file config with "
+         "ConfigReloadInterval 200ms of real time, valid change -> poll until applied, rejected contents held over >= 3 failing ticks, "
+         "valid change -> poll until applied and notified exactly once; every "
          "reload also runs a real startup (NewConfig) on the same files for the accept/reject verdict; "
          "non-trivial = startup succeeded, at least one rewrite after it and at least two reload triggers; distinct by transcript hash",
     trusted_base=["crypto/md5 treated as injective on the generated contents (harness maps GetHashes back to content tokens)",
